@@ -240,13 +240,14 @@ def one_real_per_sample(r, B):
 # batch up to the precision of the RESULT's element type (verdict: property level); None = refused with an exception, or - SigmaX / SigmaY on a
 # uint8 batch - silently wrong (observation proposed/O_C08_uint8_flip.md): no verdict, outcome counted.
 SAMPLE_DTYPES = ("f32", "f16", "i64", "i32", "i16", "i8", "u8", "bool")
+UINT8_FLIP_REPAIRED = __import__("os").environ.get("QV_C08_UINT8_FLIP") == "1"   # off; switch on once proposed/O_C08_uint8_flip.diff is applied
 _TOL = {"f64": 1e-9, "f32": 2e-6, "f16": 4e-3}
 
 
 def dtype_verdict(family, kind, dt):
     """tolerance (values lie in [-1, 1] up to the importance ratios) if the clean code evaluates `family` on a batch of element type `dt`, else None"""
     if family in ("sigmaX", "sigmaY"):     # the batch goes through the state's amplitudes (F.linear with float64 parameters converts it)
-        return 1e-9 if kind != "dens" and dt in ("f32", "f16", "i64", "i32", "i16", "i8") else None
+        return 1e-9 if kind != "dens" and dt in ("f32", "f16", "i64", "i32", "i16", "i8") + (("u8",) if UINT8_FLIP_REPAIRED else ()) else None
     if family == "sigmaZ":                 # samples.mean(1): floating batches only, in the batch's precision
         return _TOL.get(dt)
     return _TOL.get(dt, _TOL["f32"])       # NeighbourInteraction: to_pm1 promotes an integer / bool batch to the default floating type
